@@ -552,7 +552,10 @@ mod validate {
             tys.extend(f.locals.iter().map(|l| &l.ty));
             tys.extend(m.types.iter());
             if tys.iter().any(|t| ty_has_param(t)) {
-                add("type-param-in-function", String::new());
+                // an instance that still mentions a parameter = substitution failure; any other
+                // function can only have got one from the generic function it is nested in
+                let is_instance = post.mono_instances.iter().any(|i| i.result == f.id);
+                add(if is_instance { "type-param-in-function" } else { "type-param-in-nested-function-of-generic" }, String::new());
             }
             for t in tys {
                 ty_structs(t, &mut roots);
@@ -602,7 +605,8 @@ mod validate {
             seen.push(n.clone());
             if let Some(s) = post.structs.iter().find(|s| s.name == n) {
                 if s.fields.iter().any(|f| ty_has_param(&f.ty)) {
-                    out.push(Finding { fn_id: u32::MAX, fn_name: format!("struct {}", s.name), kind: "type-param-in-reachable-struct".into(), detail: n.clone() });
+                    let kind = if s.is_closure_env { "type-param-in-closure-env-of-generic" } else { "type-param-in-reachable-struct" };
+                    out.push(Finding { fn_id: u32::MAX, fn_name: format!("struct {}", s.name), kind: kind.into(), detail: n.clone() });
                 }
                 for fl in &s.fields {
                     ty_structs(&fl.ty, &mut roots);
@@ -656,7 +660,13 @@ impl MonoEnc {
             AirType::Ptr(i) => format!("(TPtr {})", self.key1(i)),
             AirType::Slice(i) => format!("(TSlice {})", self.key1(i)),
             AirType::Array(i, n) => format!("(TArr {} {})", self.key1(i), n),
-            AirType::FnPtr { .. } => "(TFn TNil (TPrim 0))".into(),
+            AirType::FnPtr { params, ret, .. } => {
+                let mut s = String::from("TNil");
+                for p in params.iter().rev() {
+                    s = format!("(TCons {} {})", self.key1(p), s);
+                }
+                format!("(TFn {} {})", s, self.key1(ret))
+            }
             other => self.ty(other),
         }
     }
@@ -761,7 +771,10 @@ fn type_to_string(ty: &AirType) -> String {
         AirType::Struct(n) => n.clone(),
         AirType::Array(i, n) => format!("array_{}_{}", type_to_string(i), n),
         AirType::Slice(i) => format!("slice_{}", type_to_string(i)),
-        AirType::FnPtr { .. } => "fnptr".into(),
+        AirType::FnPtr { params, ret, .. } => {
+            let ps: Vec<String> = params.iter().map(type_to_string).collect();
+            format!("fn_{}_to_{}", ps.join("_"), type_to_string(ret))
+        }
         AirType::Param(i) => format!("param_{}", i.0),
         AirType::Void => "void".into(),
     }
@@ -1168,7 +1181,22 @@ impl<'a> Gen<'a> {
             let e = self.expr(Ty::Int, 1, &inner);
             let tail = if self.rng.chance(4, 5) { format!("{}return {}\n", Self::ind(ind + 1), e) } else { String::new() };
             let arg = self.expr(Ty::Int, 1, sc);
-            return format!("{}let {} = fn({}: int) -> int {{\n{}{}{}}}\n{}print({}({}))\n", p, f, a, body, tail, p, p, f, arg);
+            let mut extra = String::new();
+            let g1: Vec<String> = self.generics.iter().filter(|(_, k)| *k == 1).map(|(g, _)| g.clone()).collect();
+            if !g1.is_empty() && self.rng.chance(1, 3) {
+                // a function value as the type argument of a generic call
+                self.st.hit("closure-to-generic");
+                let w = self.name("w");
+                extra = format!("{}let {} = {}({})\n", p, w, self.rng.pick(&g1), f);
+            }
+            return format!("{}let {} = fn({}: int) -> int {{\n{}{}{}}}\n{}print({}({}))\n{}", p, f, a, body, tail, p, p, f, arg, extra);
+        }
+        if self.rng.chance(1, 3) {
+            self.st.hit("struct-in-function");
+            let sn = self.name("S");
+            let v = self.name("v");
+            let e = self.expr(Ty::Int, 1, sc);
+            return format!("{}struct {} {{ a: int, b: Point }}\n{}let {} = {} {{ a: {}, b: Point {{ x: 1, y: 2 }} }}\n{}print({}.a)\n", p, sn, p, v, sn, e, p, v);
         }
         self.st.hit("bare-block");
         let b = self.block(d - 1, ind + 1, sc, in_loop, ret, 3);
@@ -1195,7 +1223,7 @@ impl<'a> Gen<'a> {
         }
         s.push_str("fn add2(a: int, b: int) -> int { return a + b }\n");
         // generic helpers
-        let ng = self.rng.below(4);
+        let ng = self.rng.below(5);
         for _ in 0..ng {
             let g = self.name("g");
             let kind = 1 + self.rng.below(3) as u8;
@@ -1209,10 +1237,10 @@ impl<'a> Gen<'a> {
             let saved = std::mem::take(&mut self.generics);
             self.budget = 40;
             let mut body = self.block(2, 1, &mut sc, false, None, 3);
-            let flavour = self.rng.below(10);
+            let flavour = if !saved.is_empty() && self.rng.chance(1, 3) { 0 } else { self.rng.below(10) };
             if flavour == 0 && !saved.is_empty() {
-                // generic calling a generic (requests come only from non-generic callers)
-                let (h, k) = saved[0].clone();
+                // generic calling an earlier generic: chains of instantiations
+                let (h, k) = self.rng.pick(&saved).clone();
                 self.st.hit("generic-calls-generic");
                 body.push_str(&match k {
                     1 => format!("  let w = {}(x)\n", h),
